@@ -217,20 +217,77 @@ def headers_defs(maxlen):
             "PHdrs(n) == UNION {[1..k -> Plain] : k \\in 1..n}"]
 
 
+def random_tree(rnd, idx):
+    """a random command tree (inputs only; TLC decides whether it is SCPI-valid)"""
+    names = ["A", "Bc", "Bc2", "Cde", "X", "Xy1", "OUTP", "OUTP3", "Zed"]
+
+    def kids(depth, budget):
+        out = []
+        n = rnd.randint(1, 3)
+        used = set()
+        for _ in range(n):
+            if budget[0] <= 0:
+                break
+            nm = rnd.choice(names)
+            if nm in used:
+                continue
+            used.add(nm)
+            budget[0] -= 1
+            d = rnd.random() < 0.3
+            if depth < 3 and rnd.random() < 0.5 and budget[0] > 0:
+                sub = kids(depth + 1, budget)
+                if sub:
+                    out.append(B(nm, *sub, d=d))
+                    continue
+            if rnd.random() < 0.1 and d:
+                nm = ""
+            out.append(L(nm, d=d))
+        rnd.shuffle(out)
+        return out
+    t = T(*kids(1, [7]))
+    if rnd.random() < 0.5:
+        t["kids"].append(L("*T"))
+    return t
+
+
+def tree_is_valid(ft, cands, tag):
+    """TLC evaluates ValidTree for the candidate mnemonics (no message is generated)"""
+    c, d2 = cfg(0, [""], [-1], emit=False, lexagrees=False)
+    c = c.replace("INVARIANTS EmitCase Order CurIsBranch Twin OwnData Framing Valid", "INVARIANTS Valid").replace("PROPERTIES Frozen\n", "")
+    mod = f"MCExec_valid_{tag}"
+    res = tlc(mod, c, f"C02-valid-{tag}", workers=1, gen_text=module(mod, ft, cands, d2, "{}", "{}"), timeout=300)
+    return not res.errors
+
+
 def run_c02(chk, tier, seed):
     th = tier == "thorough"
     total = 0
-    for name, tree in TREES.items():
+    trees = dict(TREES)
+    import random
+    rnd = random.Random(seed * 7919 + 13)
+    want = 12 if th else 2
+    tries = 0
+    while want > 0 and tries < 60:
+        tries += 1
+        t = random_tree(rnd, tries)
+        ft = flatten(t)
+        if len(ft["kind"]) < 4:
+            continue
+        if tree_is_valid(ft, cands_for(t, rich=False), f"r{tries}"):
+            trees[f"rand{tries}"] = t
+            want -= 1
+    chk.cov["random_trees"] = [k for k in trees if k.startswith("rand")]
+    for name, tree in trees.items():
         ft = flatten(tree)
         cands = cands_for(tree, rich=False)
         defs = headers_defs(3)
-        depth = 3 if name not in ("chain", "rootdef") else (4 if th else 3)
+        depth = 3
         # singles: every header up to `depth` mnemonics x leading colon x form (+ common commands in both forms)
         all_units = (f"{{Mk(l, p, q) : l \\in {{0, 1}}, p \\in PHdrs({depth}), q \\in BOOLEAN}} "
                      f"\\cup {{Mk(0, <<c>>, q) : c \\in Commons, q \\in BOOLEAN}}")
         fp = ", ".join("<<" + ", ".join(tla_bytes(m) for m in p) + ">>" for p in root_paths(tree))
         first = f"{{u \\in {{Mk(l, p, FALSE) : l \\in {{0, 1}}, p \\in {{{fp}}}}} : Desig(Root, u.path) # {{}} /\\ (u.lead = 1 => ~IsCommon(u))}}"
-        nxt = (f"{{Mk(0, p, FALSE) : p \\in PHdrs({3 if th else 2})}} \\cup {{Mk(1, p, TRUE) : p \\in PHdrs({2 if th else 1})}} "
+        nxt = (f"{{Mk(0, p, FALSE) : p \\in PHdrs(2)}} \\cup {{Mk(1, p, TRUE) : p \\in PHdrs({2 if th else 1})}} "
                f"\\cup {{Mk(0, <<c>>, FALSE) : c \\in Commons}}")
         # (a) all single-unit messages, valid or not
         s1 = run_projection(chk, "C02", f"{name}-single", ft, cands, defs, all_units, "{}", 1, ["", "\n"], [-1], ["--history"])
@@ -250,7 +307,7 @@ def run_c02(chk, tier, seed):
     chk.cov["rule"] = ("per library tree: every single-unit message whose header is any sequence of <= 3 candidate mnemonics (2 spellings per node name + a foreign name) x leading colon x event/query, "
                        "and every 2-unit (3 thorough) message with a valid first unit; spelling projection: all short/long/case/explicit-1/partial-long spellings on <= 2-mnemonic headers; "
                        "each message is also run after the previous message on the same tree; non-trivial = failing or multi-unit messages")
-    chk.assumptions += ["trees are SCPI-valid (ValidTree checked by TLC for every library tree); library of %d trees" % len(TREES)]
+    chk.assumptions += ["trees are SCPI-valid (ValidTree checked by TLC for every tree); %d library trees + seeded random trees that TLC found valid" % len(TREES)]
 
 
 SMALL = T(L("*OPC"), L("A"), L("Bq"), B("GRP", L("X"), L("Y", d=True)),
